@@ -883,6 +883,11 @@ def run(ctx):
     run_r4(ctx, r4)
     r4b = ctx.rule("C03-R4b", "binary varint: continuation-bit protocol (writer's last group < 0x80, all bits emitted, same shift and masks as the reader)", floor=5)
     run_r4b(ctx, r4b)
+    # what the writers emit reaches the sink complete: the Write impl every formatted number and header goes through
+    # neither fails nor writes short (C11-R4, run here too)
+    from .c11 import run_r4 as c11_r4
+    r9 = ctx.rule("C03-R9", "formatted output is not truncated on the way to the buffer: Write::write / write_all take the whole input and cannot fail (shared with C11-R4)", floor=8)
+    c11_r4(ctx, r9)
     r8 = ctx.rule("C03-R8", "sibling agreement: the ascii and the binary whole-file parser have the same section / loop structure", floor=2)
     run_r8(ctx, r8)
     r5 = ctx.rule("C03-R5", "AIGER header: fields parsed in the written order; optional tail agrees (5 required fields)", floor=6)
